@@ -55,6 +55,7 @@ func genProgram(t *rapid.T, maxTasks, maxOps int, oneType, noAsync bool) *Case {
 				id++
 				op.ID = id
 				op.Any = rapid.IntRange(0, 3).Draw(t, "viaAny") == 0
+				op.Live = rapid.IntRange(0, 2).Draw(t, "liveCtx") == 0
 			}
 			ops = append(ops, op)
 		}
